@@ -87,12 +87,12 @@ def check(ctx, rep):
         idop = dict(zip(s['rv']['fields'], s['rv']['ops']))['id']
         if f is r:
             same = all(o.kind == 'call' and o.bb == gb for o in origins(f, idop)) and bool(origins(f, idop))
-        elif f.root != r.path:
-            # lifted body: follow the id through captures / struct fields back to the function
+        else:
+            # follow the id through captures, closure parameters and struct fields back to the function
             from rules.props import prims as _pr
             tr = _pr.trace_to_root(time, f, idop, r)
             same = bool(tr) and all(h is r and o.kind == 'call' and o.bb == gb for h, o in tr)
-        else:
+        if not same and f is not r and f.root == r.path:
             names, calls = c17.param_names(f, idop, extra=[])
             # the captured variable must be initialised from the get_timer_id call in the root function
             same = False
